@@ -72,7 +72,7 @@ def main():
         ran["existing_tests_pass"] = "FAILED" not in o3 and "failed" not in o3.replace("0 failed", "") and "test result: ok. 62 passed" in o3 and "test result: ok. 15 passed" in o3
         shutil.copy(os.path.join(src, "demo.rs"), os.path.join(WT, "tests", "seed_demo.rs"))
         rc4, o4 = sh("cargo test --offline %s --test seed_demo 2>&1 | tail -15" % demo_feat, cwd=WT)
-        ran["demo_fails_with_change"] = rc4 != 0 or "FAILED" in o4 or "panicked" in o4 or "error: test failed" in o4 or "SIGABRT" in o4
+        ran["demo_fails_with_change"] = rc4 != 0 or "FAILED" in o4 or "panicked" in o4 or "error: test failed" in o4 or "SIGABRT" in o4 or "could not compile" in o4
         ran["demo_output_with_change"] = o4[-600:]
         # without the change
         sh("git apply -R --whitespace=nowarn %s" % os.path.join(os.path.abspath(src), "patch.diff"), cwd=WT)
@@ -115,6 +115,8 @@ def main():
             "what_i_ran": "tools/seedcheck.py: git apply in a scratch worktree; cargo build (default and all harness features); cargo test --workspace --offline --lib --tests; demo with and without the patch; ./check <prop> with VERIF_REPO pointing at the patched worktree",
             "checks": checks,
         }
+        if old.get("disposition"):
+            meta_out["disposition"] = old["disposition"]
         json.dump(meta_out, open(mpath, "w"), indent=1)
     return 0 if ok else 3
 
